@@ -646,7 +646,7 @@ func TestSim(t *testing.T) {
 		Knobs: func(r *harn.Rng, sci interface{}, cfg *simrt.Config) {
 			// a stall fault lets up to 40 s pass: with a 50 us flush ticker that is close to a
 			// million timer firings of real work per stall
-			if sci.(*scenario).Program == "udpwrite" {
+			if sc := sci.(*scenario); sc.Program == "udpwrite" || (sc.Program == "udp" && len(sc.Ops[0])%2 == 0) {
 				cfg.StallP = 0
 			}
 		},
